@@ -19,3 +19,9 @@ Definition go_atoi_z (s : list N) : Z * Z :=
 
 Definition go_parse_uint_0_8_z (s : list N) : Z * Z :=
   match Bed.parse_uint8 s with Some n => (Z.of_N n, 0%Z) | None => (0%Z, 2%Z) end.
+
+From Bio.Model Require Sam.
+(* encoding/hex *)
+Definition go_hex_encode (l : list N) : list N := Sam.hex_encode l.
+Definition go_hex_decode (s : list N) : list N * bool :=
+  match Sam.hex_decode s with Some l => (l, false) | None => ([], true) end.
